@@ -41,19 +41,22 @@ def run(ctx):
     cov = seq.coverage_from(m, RULE, min_classes=8)
     cov.update({k: m['counters'].get(k, 0) for k in ('encode_calls', 'decode_calls', 'basic_decode_calls')})
     viol = seq.violations_from(m)
-    if not m['deadline_hit']:
-        def need(k, n):
-            if oc.get(k, 0) < n:
-                raise HarnessError('vacuity guard: outcome class %s seen %d times (need %d): %r' % (k, oc.get(k, 0), n, oc))
-        need('codec:roundtrip', 100000)
+    if not m['deadline_hit'] and not m['crashes']:
+        # vacuity guards count the cases that were *tried* per category (good and bad outcome together), so they hold
+        # with or without violations; a crashed child loses its counters, hence not after crashes
+        def need(what, n, *classes):
+            got = sum(v for k, v in oc.items() if k in classes)
+            if got < n:
+                raise HarnessError('vacuity guard: %s: %d cases (need %d): %r' % (what, got, n, oc))
+        need('codec round trips', 100000, 'codec:roundtrip')
         for impl in ('tree-lib-base64', [k.split(':')[0] for k in oc if k.startswith('configured-')][0]):
-            need(impl + ':valid-decoded', 100)
-            need(impl + ':malformed-rejected', 10000)
-            need(impl + ':lenient-decoded', 100)
-        need('basic:user-and-password', 10000)
-        need('basic:user-and-password-with-colon', 1000)
-        need('basic:user-without-password', 1000)
-        need('basic:malformed-rejected', 1000)
+            need(impl + ' canonical texts', 100, impl + ':valid-decoded', impl + ':valid-MISHANDLED')
+            need(impl + ' malformed texts', 10000, impl + ':malformed-rejected', impl + ':malformed-ACCEPTED')
+            need(impl + ' lenient texts', 100, impl + ':lenient-decoded', impl + ':lenient-rejected', impl + ':lenient-MISHANDLED')
+        need('Basic user:password', 10000, 'basic:user-and-password', 'basic:user-and-password-with-colon', 'basic:WRONG-USER', 'basic:WRONG-PASS')
+        need('Basic password containing a colon (or the failure that hides it)', 1000, 'basic:user-and-password-with-colon', 'basic:WRONG-USER', 'basic:WRONG-PASS')
+        need('Basic without password', 1000, 'basic:user-without-password', 'basic:user-with-empty-password')
+        need('Basic malformed base64', 1000, 'basic:malformed-rejected', 'basic:malformed-ACCEPTED')
     return Result(LEVEL, cov, viol, ASSUME)
 
 
